@@ -180,6 +180,15 @@ func c09Setter(name string, n, pre int) (s stun.Setter, accept bool, classOK fun
 		return stun.Software(bytesOf(n)), n <= 763, overflow, "IsAttrSizeOverflow"
 	case "ErrorCodeAttribute":
 		return stun.ErrorCodeAttribute{Code: 401, Reason: bytesOf(n)}, n <= 763, overflow, "IsAttrSizeOverflow"
+	case "ErrorCodeAttribute/any-code":
+		// the attribute form takes any code and any reason within the limit, the empty one included: n = code
+		return stun.ErrorCodeAttribute{Code: stun.ErrorCode(n), Reason: nil}, true, overflow, "IsAttrSizeOverflow"
+	case "ErrorCodeAttribute/any-code/reason":
+		return stun.ErrorCodeAttribute{Code: stun.ErrorCode(n), Reason: []byte("r")}, true, overflow, "IsAttrSizeOverflow"
+	case "Fingerprint/large-body":
+		// n = attribute bytes in front of it; only what the setter does when it REFUSES is judged (sizes that do not
+		// fit the 16-bit length are outside the property's precondition, and the setter has no limit of its own today)
+		return stun.Fingerprint, true, func(error) bool { return true }, "any"
 	case "ErrorCode":
 		return stun.ErrorCode(n), c09Codes[n], func(err error) bool { return errors.Is(err, stun.ErrNoDefaultReason) }, "ErrNoDefaultReason"
 	case "XORMappedAddress":
@@ -223,8 +232,19 @@ func c09Check1(k c09Case) (string, string, string) {
 	}
 	s, accept, classOK, class := c09Setter(k.Setter, k.N, k.Pre)
 	m := c09Pre(k.Pre)
+	if k.Setter == "Fingerprint/large-body" {
+		m = new(stun.Message)
+		m.WriteHeader()
+		m.Add(stun.AttrData, make([]byte, k.N-4))
+	}
 	snap := snapMsg(m)
 	err := s.AddTo(m)
+	if k.Setter == "Fingerprint/large-body" {
+		if err == nil {
+			return "accept", "", "" // (whether the result fits is the precondition's business)
+		}
+		accept = false
+	}
 	if accept {
 		if err != nil {
 			return "", "rejects-valid/" + k.Setter, fmt.Sprintf("%s(%d) after content %d rejected a value within the limits: %v", k.Setter, k.N, k.Pre, err)
@@ -402,6 +422,19 @@ func init() {
 							for n := 0; n <= 24; n++ {
 								do(c09Case{Setter: "ip:" + pat + ":" + name, N: n, Pre: pre})
 							}
+						}
+					}
+				}
+				if pre < 2 {
+					for code := 0; code <= 999; code++ {
+						do(c09Case{Setter: "ErrorCodeAttribute/any-code", N: code, Pre: pre})
+						do(c09Case{Setter: "ErrorCodeAttribute/any-code/reason", N: code, Pre: pre})
+					}
+				}
+				if pre == 0 {
+					for n := 65500; n <= 65535; n++ {
+						if n%4 == 0 {
+							do(c09Case{Setter: "Fingerprint/large-body", N: n, Pre: pre})
 						}
 					}
 				}
